@@ -76,7 +76,10 @@ def run_case(rng, tier, idx):
     p = gen.build_panel(d)
     num = 1 if model == 'plate_w' else 3
     size = num * d['m'] * d['n']
-    p.flow = flow
+    # the accepted spellings of the flow direction ('x', 'X', 'y', 'Y')
+    spelled = flow.upper() if rng.random() < 0.3 else flow
+    c.tag('flow_spelled:' + spelled)
+    p.flow = spelled
     p.beta = beta
     p.gamma = gamma if gamma else None
     fresh = bool(rng.random() < 0.4)
